@@ -37,6 +37,7 @@ def floors(tier):
             "paths": ["tickMethod.row12", "tickMethod.row15", "tickMethod.row17", "tickMethod.multi-year", "tickMethod.milliseconds"]}
 
 
+_REUSE = {"lin": None, "time": None}  # a quarter of the cases re-use the scale object of the previous case
 KEY_FLOAT_STEP = "linear-nice-round-end-pushed-out-by-float-division"
 
 
@@ -65,7 +66,9 @@ def float_extra_step(a, b, a2, b2, ticks, probs):
 def lin_case(ctx, S, a, b, m, tag):
     case = {"scale": "linear", "domain": [a, b], "m": m}
     try:
-        s = S.LinearScale().domain([a, b])
+        prev = _REUSE["lin"]
+        s = prev.domain([a, b]) if (prev is not None and hash((a, b)) % 4 == 0) else S.LinearScale().domain([a, b])
+        _REUSE["lin"] = s
         s.nice(m) if m is not None else s.nice()
         a2, b2 = s.domain()
         ticks = list(s.ticks(m)) if m is not None else list(s.ticks())
@@ -89,7 +92,9 @@ def time_case(ctx, S, a, b, m, tag):
     case = {"scale": "time", "domain": [a, b], "m": m}
     stratum = "time+calendar-edge" if ("edge" in tag or "month-end" in tag) else "time"
     try:
-        s = S.TimeScale().domain([a, b])
+        prev = _REUSE["time"]
+        s = prev.domain([a, b]) if (prev is not None and hash((a, b)) % 4 == 0) else S.TimeScale().domain([a, b])
+        _REUSE["time"] = s
         before = s.ticks(m) if m is not None else s.ticks()
         s.nice(m) if m is not None else s.nice()
         a2, b2 = s.domain()
